@@ -219,6 +219,10 @@ type c19Program struct {
 	readers  int
 	otherHdl bool // reader 2 uses another handle
 	q        ref.Query
+	// r2first, when set, makes reader 2 perform another read first (an
+	// existence test of the written triple, or a lookup under another cache
+	// key) and then the lookup q: two reads one after the other by one client
+	r2first string // "", "exist", "other-lookup"
 }
 
 // runSchedule executes the program under the schedule (participant ids; when
@@ -230,13 +234,36 @@ type c19Step struct {
 	point   string
 }
 
-func c19RunSchedule(prog c19Program, schedule []int) (trace []c19Step, finalOK bool, detail string, readerBetween bool) {
+func c19RunSchedule(prog c19Program, schedule []int, free *rand.Rand) (trace []c19Step, finalOK bool, detail string, readerBetween bool, hist []string, linear porcupine.CheckResult) {
 	ctx := context.Background()
 	inner := memory.NewStore()
 	wrapped := memoization.New(inner)
 	ig, _ := inner.NewGraph(ctx, "?g")
 	base := []*triple.Triple{c19T(0), c19T(1)}
-	ig.AddTriples(ctx, base)
+	// the history of the run, at the client boundary: execution is serialised by
+	// the scheduler, so the recorder's clock orders operations as they happened
+	qOther := ref.Query{Method: "TriplesForObject", O: triple.NewNodeObject(gen.VNodes[3])} // the object of the added triple
+	if !prog.writeAdd {
+		qOther.O = triple.NewNodeObject(gen.VNodes[1]) // the object of the removed triple
+	}
+	spec := &lin.GraphSpec{Universe: []*triple.Triple{c19T(0), c19T(1), c19T(2)}, Queries: []ref.Query{prog.q, qOther}, Options: []*storage.LookupOptions{storage.DefaultLookup, storage.DefaultLookup}}
+	rec := lin.NewRecorder()
+	setup := rec.Client(99)
+	setup.Do(func() ([]interface{}, []interface{}) {
+		ig.AddTriples(ctx, base)
+		return []interface{}{lin.GIn{Kind: lin.OpAdd, Mask: 3}}, []interface{}{""}
+	})
+	setup.Flush()
+	lookup := func(cl *lin.ClientLog, c context.Context, hd storage.Graph, qi int) []string {
+		var res []string
+		cl.Do(func() ([]interface{}, []interface{}) {
+			res, _, _ = ref.Call(c, hd, spec.Queries[qi], storage.DefaultLookup)
+			sorted := append([]string{}, res...)
+			sort.Strings(sorted)
+			return []interface{}{lin.GIn{Kind: lin.OpLookup, Q: qi}}, []interface{}{strings.Join(sorted, "\x1c")}
+		})
+		return res
+	}
 	h1, _ := wrapped.Graph(ctx, "?g")
 	h2 := h1
 	if prog.otherHdl {
@@ -263,12 +290,21 @@ func c19RunSchedule(prog c19Program, schedule []int) (trace []c19Step, finalOK b
 	if !prog.writeAdd {
 		wt = c19T(0)
 	}
+	wbit := uint64(4)
+	if !prog.writeAdd {
+		wbit = 1
+	}
 	run(0, func(c context.Context) {
-		if prog.writeAdd {
-			h1.AddTriples(c, []*triple.Triple{wt})
-		} else {
+		cl := rec.Client(0)
+		defer cl.Flush()
+		cl.Do(func() ([]interface{}, []interface{}) {
+			if prog.writeAdd {
+				h1.AddTriples(c, []*triple.Triple{wt})
+				return []interface{}{lin.GIn{Kind: lin.OpAdd, Mask: wbit}}, []interface{}{""}
+			}
 			h1.RemoveTriples(c, []*triple.Triple{wt})
-		}
+			return []interface{}{lin.GIn{Kind: lin.OpRem1, Mask: wbit}}, []interface{}{""}
+		})
 	})
 	for k := 1; k <= prog.readers; k++ {
 		k := k
@@ -277,8 +313,20 @@ func c19RunSchedule(prog c19Program, schedule []int) (trace []c19Step, finalOK b
 			hd = h2
 		}
 		run(k, func(c context.Context) {
-			res, _, _ := ref.Call(c, hd, prog.q, storage.DefaultLookup)
-			results[k] = res
+			cl := rec.Client(k)
+			defer cl.Flush()
+			if k == 2 {
+				switch prog.r2first {
+				case "exist":
+					cl.Do(func() ([]interface{}, []interface{}) {
+						ok, _ := hd.Exist(c, wt)
+						return []interface{}{lin.GIn{Kind: lin.OpExist, Mask: wbit}}, []interface{}{map[bool]string{true: "t", false: "f"}[ok]}
+					})
+				case "other-lookup":
+					lookup(cl, c, hd, 1)
+				}
+			}
+			results[k] = lookup(cl, c, hd, 0)
 		})
 	}
 	alive := make([]bool, n)
@@ -300,6 +348,9 @@ func c19RunSchedule(prog c19Program, schedule []int) (trace []c19Step, finalOK b
 		chosen := enabled[0]
 		if step < len(schedule) {
 			chosen = schedule[step]
+		} else if free != nil {
+			// beyond the prescribed prefix: a uniformly random walk
+			chosen = enabled[free.Intn(len(enabled))]
 		}
 		trace = append(trace, c19Step{enabled: enabled, chosen: chosen, point: lastPoint[chosen]})
 		// NT: a reader step is taken while the writer sits between clear and forward
@@ -331,6 +382,12 @@ func c19RunSchedule(prog c19Program, schedule []int) (trace []c19Step, finalOK b
 			break
 		}
 	}
+	ops := rec.Ops()
+	model := lin.GraphModel(spec)
+	linear, _ = porcupine.CheckOperationsVerbose(model, ops, 20*time.Second)
+	if linear != porcupine.Ok {
+		hist = lin.Describe(model, ops)
+	}
 	return
 }
 
@@ -344,7 +401,12 @@ func c19Explore(r *rt.Rec, prog c19Program, limit int, rng *rand.Rand) {
 	count := 0
 	finalStates := map[string]bool{}
 	for {
-		trace, ok, detail, between := c19RunSchedule(prog, schedule)
+		var free *rand.Rand
+		if limit > 0 && rng != nil && count%2 == 1 {
+			// sampling mode: every other run is a random walk from the start
+			schedule, free = nil, rng
+		}
+		trace, ok, detail, between, hist, linear := c19RunSchedule(prog, schedule, free)
 		count++
 		r.Eval(1)
 		var chosen []string
@@ -354,8 +416,19 @@ func c19Explore(r *rt.Rec, prog c19Program, limit int, rng *rand.Rand) {
 			chosen = append(chosen, fmt.Sprintf("%d@%s", st.chosen, st.point))
 		}
 		finalStates[fmt.Sprint(ok)] = true
-		desc := fmt.Sprintf("writer=%s readers=%d other-handle=%v %s schedule=%v", map[bool]string{true: "add", false: "remove"}[prog.writeAdd], prog.readers, prog.otherHdl, prog.q.Method, chosen)
+		desc := fmt.Sprintf("writer=%s readers=%d other-handle=%v reader2-first=%q %s schedule=%v", map[bool]string{true: "add", false: "remove"}[prog.writeAdd], prog.readers, prog.otherHdl, prog.r2first, prog.q.Method, chosen)
 		r.Note(desc)
+		switch linear {
+		case porcupine.Illegal:
+			cls := "one-read-per-reader"
+			if prog.r2first != "" {
+				cls = "two-reads-by-one-reader"
+			}
+			r.Violation("not-linearizable/steered/"+cls, "the reads and the write of a steered schedule have no sequential explanation: a read returned the state before the write after another read had already returned the state after it",
+				map[string]interface{}{"program": desc, "schedule": full, "history": hist})
+		case porcupine.Unknown:
+			r.Inconclusive("porcupine timed out on a steered history")
+		}
 		if !ok {
 			cls := "same-handle"
 			if prog.otherHdl {
@@ -392,20 +465,33 @@ func c19Explore(r *rt.Rec, prog c19Program, limit int, rng *rand.Rand) {
 	r.Count("schedules_run", count)
 }
 
-func c19Interleavings(r *rt.Rec, which int, sampleWRR int, rng *rand.Rand) {
+func c19Programs() []c19Program {
 	q := ref.Query{Method: "TriplesForSubject", S: gen.VNodes[0]}
 	q2 := ref.Query{Method: "Objects", S: gen.VNodes[0], P: gen.MustImm("p")}
-	progs := []c19Program{
+	return []c19Program{
 		{writeAdd: true, readers: 1, q: q},
 		{writeAdd: false, readers: 1, q: q},
 		{writeAdd: true, readers: 1, q: q2},
 		{writeAdd: true, readers: 2, q: q},
 		{writeAdd: false, readers: 2, q: q2},
 		{writeAdd: true, readers: 2, otherHdl: true, q: q},
+		{writeAdd: true, readers: 2, q: q, r2first: "exist"},
+		{writeAdd: false, readers: 2, otherHdl: true, q: q2, r2first: "other-lookup"},
 	}
+}
+
+func c19Interleavings(r *rt.Rec, which int, sampleWRR int, rng *rand.Rand) {
+	progs := c19Programs()
 	p := progs[which%len(progs)]
 	limit := 0
-	if p.readers == 2 {
+	if p.r2first != "" {
+		// the schedule space of a reader with two reads is in the hundreds of
+		// thousands: always sampled
+		limit = 1500
+		if sampleWRR == 0 {
+			limit = 40000
+		}
+	} else if p.readers == 2 {
 		limit = sampleWRR
 	}
 	c19Explore(r, p, limit, rng)
@@ -719,7 +805,7 @@ func init() {
 				}},
 				{Name: "key-confusion", N: 8, Run: func(i int, r *rt.Rec) { c19KeyConfusion(r, gen.Rng(seed, "c19k", i), kc) }},
 				{Name: "fault-then-read", N: 8, Run: func(i int, r *rt.Rec) { c19FaultThenRead(r, gen.Rng(seed, "c19f", i), n/16+4) }},
-				{Name: "interleavings", N: 6, Exhaustive: tier == "thorough", Run: func(i int, r *rt.Rec) { c19Interleavings(r, i, wrr, gen.Rng(seed, "c19b", i)) }},
+				{Name: "interleavings", N: 8, Exhaustive: tier == "thorough", Run: func(i int, r *rt.Rec) { c19Interleavings(r, i, wrr, gen.Rng(seed, "c19b", i)) }},
 				{Name: "stress-race", N: 16, Race: true, Run: func(i int, r *rt.Rec) { c19Stress(r, gen.Rng(seed, "c19c", i), st/16) }},
 			}
 		},
